@@ -18,6 +18,7 @@ import (
 	"strings"
 	"sync"
 	"sync/atomic"
+	"syscall"
 	"time"
 
 	"github.com/jsightapi/jsight-schema-core/fs"
@@ -462,6 +463,19 @@ func materialise(j *proto.Job) error {
 		}
 		if bytes.Contains(content, []byte("@@BOX@@")) {
 			content = bytes.ReplaceAll(content, []byte("@@BOX@@"), []byte(box))
+		}
+		// special files: a named pipe, a symbolic link
+		if string(content) == "@@FIFO@@" {
+			if err := syscall.Mkfifo(p, 0o644); err != nil {
+				return err
+			}
+			continue
+		}
+		if strings.HasPrefix(string(content), "@@SYMLINK:") && strings.HasSuffix(string(content), "@@") {
+			if err := os.Symlink(strings.TrimSuffix(strings.TrimPrefix(string(content), "@@SYMLINK:"), "@@"), p); err != nil {
+				return err
+			}
+			continue
 		}
 		if err := os.WriteFile(p, content, 0o644); err != nil {
 			return err
